@@ -347,7 +347,11 @@ func mutexLock(i *interpreter, fr *frame, fn *ssa.Function, args []value) value 
 			}
 			panic(blockEvent{"self-deadlock: Lock of a mutex this goroutine already holds", nil})
 		}
-		if !i.yield() {
+		me := i.curG
+		me.waitReady = func() bool { return !i.w.held[p] }
+		y := i.yield()
+		me.waitReady = nil
+		if !y {
 			panic(blockEvent{"deadlock: mutex held by a goroutine that cannot run", nil})
 		}
 	}
@@ -384,9 +388,20 @@ func onceDo(i *interpreter, fr *frame, fn *ssa.Function, args []value) value {
 	p := args[0].(*value)
 	m := i.sideMap(p, "once")
 	if _, done := i.mapLookup(m, "done"); done {
+		// a concurrent caller returns only when the first call has completed
+		if _, fin := i.mapLookup(m, "finished"); !fin {
+			i.blockUntil(func() bool {
+				_, fin := i.mapLookup(m, "finished")
+				return fin
+			}, "sync.Once.Do (waiting for the first call to complete)", nil)
+		}
 		return nil
 	}
 	i.mapInsert(m, "done", true)
+	defer func() {
+		i.mapInsert(m, "finished", true)
+		i.progress++
+	}()
 	call(i, fr, 0, args[1], nil)
 	return nil
 }
@@ -412,6 +427,7 @@ func (i *interpreter) sideMap(p *value, kind string) *omap {
 }
 
 func syncMapLoad(i *interpreter, fr *frame, fn *ssa.Function, args []value) value {
+	i.maybePreemptSync()
 	m := i.sideMap(args[0].(*value), "sync.Map")
 	v, ok := i.mapLookup(m, args[1])
 	if !ok {
@@ -421,18 +437,21 @@ func syncMapLoad(i *interpreter, fr *frame, fn *ssa.Function, args []value) valu
 }
 
 func syncMapStore(i *interpreter, fr *frame, fn *ssa.Function, args []value) value {
+	i.maybePreemptSync()
 	m := i.sideMap(args[0].(*value), "sync.Map")
 	i.mapInsert(m, args[1], args[2])
 	return nil
 }
 
 func syncMapDelete(i *interpreter, fr *frame, fn *ssa.Function, args []value) value {
+	i.maybePreemptSync()
 	m := i.sideMap(args[0].(*value), "sync.Map")
 	i.mapDelete(m, args[1])
 	return nil
 }
 
 func syncMapLoadOrStore(i *interpreter, fr *frame, fn *ssa.Function, args []value) value {
+	i.maybePreemptSync()
 	m := i.sideMap(args[0].(*value), "sync.Map")
 	if v, ok := i.mapLookup(m, args[1]); ok {
 		return tuple{v, true}
@@ -442,6 +461,7 @@ func syncMapLoadOrStore(i *interpreter, fr *frame, fn *ssa.Function, args []valu
 }
 
 func syncMapLoadAndDelete(i *interpreter, fr *frame, fn *ssa.Function, args []value) value {
+	i.maybePreemptSync()
 	m := i.sideMap(args[0].(*value), "sync.Map")
 	if v, ok := i.mapLookup(m, args[1]); ok {
 		i.mapDelete(m, args[1])
@@ -451,6 +471,7 @@ func syncMapLoadAndDelete(i *interpreter, fr *frame, fn *ssa.Function, args []va
 }
 
 func syncMapRange(i *interpreter, fr *frame, fn *ssa.Function, args []value) value {
+	i.maybePreemptSync()
 	m := i.sideMap(args[0].(*value), "sync.Map")
 	ents := m.ents
 	for _, e := range ents {
